@@ -160,7 +160,7 @@ pub fn oracle_c01(op: &[&str], out: &str) -> Verdict {
         }
         "sign_fresh" => {
             let p: Vec<usize> = out.split(' ').filter_map(|x| x.parse().ok()).collect();
-            if p.len() == 4 && p[3] == p[0] {
+            if p.len() == 5 && p[3] == p[0] {
                 Verdict::Pass
             } else {
                 Verdict::Fail(format!("signatures made concurrently under one shared key: {} of {} verify", p.get(3).unwrap_or(&0), p.first().unwrap_or(&0)))
@@ -221,8 +221,10 @@ pub fn oracle_c08(op: &[&str], out: &str) -> Verdict {
         }
         "sign_fresh" => {
             let p: Vec<usize> = out.split(' ').filter_map(|x| x.parse().ok()).collect();
-            if p.len() == 4 && p[0] == p[1] && p[2] == 0 {
+            if p.len() == 5 && p[0] == p[1] && p[2] == 0 && p[4] == 0 {
                 Verdict::Pass
+            } else if p.len() == 5 && p[4] != 0 {
+                Verdict::Fail(format!("{} pairs of signatures with different bytes compare equal as objects", p[4]))
             } else {
                 Verdict::Fail(format!("{} signatures, {} distinct salts, {} constant salt byte positions", p[0], p[1], p[2]))
             }
